@@ -408,3 +408,54 @@ M2('c01-whitespace-checks-dropped', 'C01', 'R9', [
 # the per-segment check only looks for blanks: a line break passes
 M('c01-whitespace-check-misses-line-breaks', 'C01', 'R9', F,
   "        if re.search(r'\\s', _FIELD_PATTERN.sub('{FIELD}', segment)):", "        if re.search(r'[ \\t]', _FIELD_PATTERN.sub('{FIELD}', segment)):")
+
+# ----------------------------------------------------------------------- wave 6
+C = 'falcon/routing/converters.py'
+# R3(d) uniqueness of the numbered generated variables (s6-c01-3): the index must count the parameter stack, i.e. every
+# assignment already collected for an ancestor; an index restarted per segment clobbers the ancestors' field_value_N
+CONV_LOOP = "        for field_name, converter_name, converter_argstr in node.var_converter_map:\n"
+CONV_SITE2 = "            cx_converter = _CxIfConverterField(len(params_stack) + 1, converter_idx)\n"
+M2('c01-unique-idx-enumerate-from-one', 'C01', 'R3', [
+    {'file': F, 'old': CONV_LOOP,
+     'new': "        for field_idx, (field_name, converter_name, converter_argstr) in enumerate(\n            node.var_converter_map, start=1\n        ):\n"},
+    {'file': F, 'old': CONV_SITE2, 'new': "            cx_converter = _CxIfConverterField(field_idx, converter_idx)\n"}])
+M2('c01-unique-idx-local-counter', 'C01', 'R3', [
+    {'file': F, 'old': CONV_LOOP, 'new': "        n_conv = 0\n" + CONV_LOOP + "            n_conv += 1\n"},
+    {'file': F, 'old': CONV_SITE2, 'new': "            cx_converter = _CxIfConverterField(n_conv, converter_idx)\n"}])
+M('c01-unique-idx-offsets-disagree', 'C01', 'R3', F, CONV_SITE2,
+  "            cx_converter = _CxIfConverterField(len(params_stack) + 2, converter_idx)\n")
+# negative controls verified by hand (exit 0): enumerate(node.var_converter_map, start=len(params_stack) + 1);
+# `unique_idx = 1 + len(params_stack)` held in a local.  `level` / len(node.var_converter_map) as index are exit 2.
+
+# R13 built-in converters veto exactly what primitive + documented options + tabled screening veto (s6-c01-1)
+UUID_TRY = "        try:\n            return uuid.UUID(value)\n"
+M2('c01-uuid-layout-precheck-lowercase-only', 'C01', 'R13', [
+    {'file': C, 'old': "from math import isfinite\n", 'new': "from math import isfinite\nimport re\n"},
+    {'file': C, 'old': "strptime = datetime.strptime\n",
+     'new': "strptime = datetime.strptime\n\n_UUID_PATTERN = re.compile(\n"
+            "    r'(urn:uuid:)?[0-9a-f]{8}-?[0-9a-f]{4}-?[0-9a-f]{4}-?[0-9a-f]{4}-?[0-9a-f]{12}\\Z'\n)\n"},
+    {'file': C, 'old': UUID_TRY, 'new': "        if _UUID_PATTERN.match(value) is None:\n            return None\n\n" + UUID_TRY}])
+M('c01-uuid-length-precheck', 'C01', 'R13', C, UUID_TRY, "        if len(value) not in (32, 36):\n            return None\n" + UUID_TRY)
+INT_SCREEN = "        if value.strip() != value:\n            return None\n\n        try:\n            converted = int(value)\n"
+M('c01-int-isdigit-precheck', 'C01', 'R13', C, INT_SCREEN,
+  "        if not value.isdigit():\n            return None\n\n        try:\n            converted = int(value)\n")
+M('c01-int-whitespace-screen-dropped', 'C01', 'R13', C, INT_SCREEN, "        try:\n            converted = int(value)\n")
+M('c01-float-length-cutoff', 'C01', 'R13', C, "        try:\n            converted = float(value)\n",
+  "        if len(value) > 32:\n            return None\n        try:\n            converted = float(value)\n")
+M('c01-path-converter-drops-empty-segments', 'C01', 'R13', C, "        return '/'.join(value)\n", "        return '/'.join(s for s in value if s)\n")
+M('c01-dt-year-first-precheck', 'C01', 'R13', C, "        try:\n            return strptime(value, self._format_string)\n",
+  "        if not value[:4].isdigit():\n            return None\n        try:\n            return strptime(value, self._format_string)\n")
+# negative controls (exit 0): `if not value: return None` in front of uuid.UUID; `except (ValueError, TypeError)`; int() moved
+# into a module-level helper returning None; the isfinite test moved out of the try; datetime.strptime spelled out
+
+# R14 the finder walks uri.lstrip('/').split('/') (s6-c01-2)
+SPLIT = "        path = uri.lstrip('/').split('/')\n"
+M2('c01-find-merges-slashes', 'C01', 'R14', [
+    {'file': F, 'old': "_IDENTIFIER_PATTERN = re.compile(r'[A-Za-z_][A-Za-z0-9_]*\\Z')\n",
+     'new': "_IDENTIFIER_PATTERN = re.compile(r'[A-Za-z_][A-Za-z0-9_]*\\Z')\n_REPEATED_SLASHES = re.compile(r'//+')\n"},
+    {'file': F, 'old': SPLIT, 'new': "        if '//' in uri:\n            uri = _REPEATED_SLASHES.sub('/', uri)\n\n" + SPLIT}])
+M('c01-find-drops-empty-segments', 'C01', 'R14', F, SPLIT, "        path = [s for s in uri.lstrip('/').split('/') if s]\n")
+M('c01-find-strips-trailing-slash', 'C01', 'R14', F, SPLIT, "        path = uri.strip('/').split('/')\n")
+M('c01-find-refuses-dot-dot', 'C01', 'R14', F, SPLIT, "        if '..' in uri:\n            return None\n" + SPLIT)
+# negative controls (exit 0): the split in two statements; re.sub('^/+', '', uri).split('/'); list(...) around it;
+# `while uri.startswith('/'): uri = uri[1:]`
